@@ -17,6 +17,7 @@ type CEnv struct {
 	wmOld *Term
 	wmCur *Term
 	qn    *int
+	entryVars map[string]SV // values of the parameters at function entry (for old())
 }
 
 func (env *CEnv) child() *CEnv {
@@ -184,6 +185,15 @@ func (env *CEnv) eval(e *CExpr) SV {
 		}
 		n := *env
 		n.cur = env.old
+		if env.entryVars != nil {
+			n.vars = map[string]SV{}
+			for k, v := range env.vars {
+				n.vars[k] = v
+			}
+			for k, v := range env.entryVars {
+				n.vars[k] = v
+			}
+		}
 		return n.eval(e.X)
 	case "unop":
 		switch e.Str {
@@ -359,6 +369,28 @@ func (env *CEnv) call(e *CExpr) SV {
 			return boolSV(Lt(a.Id, wm))
 		}
 		return boolSV(Lt(a.T, wm))
+	case "ext":
+		// an uninterpreted predicate standing for a dependency (assumed contract, DESIGN 4.2)
+		if len(e.Args) < 1 || e.Args[0].Kind != "str" {
+			env.errf("ext(\"name\", args...)")
+		}
+		var ts []*Term
+		for _, a := range e.Args[1:] {
+			ts = append(ts, env.evalInt(a))
+		}
+		return boolSV(App("ext."+e.Args[0].Str, SBool, ts...))
+	case "otherArraysUnchanged":
+		// every byte array other than the backing array of the argument is as it was in the old state
+		a := env.eval(e.Args[0])
+		if env.old == nil || a.K != KSeq {
+			env.errf("otherArraysUnchanged(slice) needs an old state")
+		}
+		env.x.registerKey("E:byte", SArr2)
+		cur := env.x.heapGet(env.cur, "E:byte", SArr2)
+		old := env.x.heapGet(env.old, "E:byte", SArr2)
+		*env.qn++
+		r := Var(fmt.Sprintf("r!q%d", *env.qn), SInt)
+		return boolSV(Forall([]*Term{r}, Implies(And(Ne(r, a.Id), Lt(r, env.wmOld)), Eq(Select(cur, r), Select(old, r)))))
 	case "isnil":
 		a := env.eval(e.Args[0])
 		if a.K == KSeq {
